@@ -203,6 +203,12 @@ func ZZ_C09_NodeResolve() {
 	p1, f1 := n1.ResolveEntrypoint(rel)
 	p2, f2 := n2.ResolveEntrypoint(rel)
 	zz.Assert(p1 == p2 && (f1 == nil) == (f2 == nil), "same-include-location-whichever-include-created-the-node")
+	// a relative path is a path next to the including Taskfile whatever its first letters are
+	// (only URLs and scp-like git addresses are left alone)
+	stem := zz.Str("name_of_the_included_directory", 4, "gihtx")
+	zz.Assume(stem != "")
+	p3, f3 := n1.ResolveEntrypoint(stem + "/Taskfile.yml")
+	zz.Assert(f3 == nil && p3 == "/p/shared/"+stem+"/Taskfile.yml", "relative-include-path-is-relative-whatever-its-name")
 	if zz.Twin() {
 		zz.Assert(false, "twin")
 	}
